@@ -131,6 +131,23 @@ DIRECTED = lifecycle_orders() + [
     (1, "0:rn;0:rp"),                                                 # blocking receive without sockets
 ]
 
+# event-driven internal thread + another thread sending to it while the owner is inside StartInternalThread: outside the
+# contract of the theorems (c11_evd_lost_wakeup_refuted); on the real code the fine runs lose the wake-up (finding handed
+# to the orchestrator, proposed patch /tmp/wt-C11-out/fix/StartInternalThread-initial-signal.patch)
+OUT_OF_CONTRACT = [
+    (2, "0:st;1:si:8;0:sd1"),
+    (2, "0:st;0:sd1;0:st;1:si:8;0:sd1"),
+]
+
+
+def in_contract(body):
+    """only the owner (thread 0) sends to the internal thread"""
+    for o in body.split(";"):
+        if o and not o.startswith("0:") and (":si:" in o or o.endswith(":sin")):
+            return False
+    return True
+
+
 EXPLORE_QUICK = [
     (2, "0:st;1:si:8;1:si:16;0:sd1", 2),
     (1, "0:st;0:si:10;0:rn;0:sd1", 2),
@@ -155,13 +172,16 @@ class CHECK(vlib.Check):
                 "StartInternalThread (unlocked HasItems() read, initial signal), ShutdownInternalThread (NULL Message, optional join), "
                 "WaitForInternalThreadToExit, GetOwnerWakeupSocket, InternalThreadEntryAux/InternalThreadEntry (signal at start-up for "
                 "replies queued in advance, B_TIMED_OUT is recoverable, NULL or an error from MessageReceivedFromOwner ends the thread), "
-                "a subclass MessageReceivedFromOwner that sends an arbitrary list of replies and may ask to exit.  Not modelled: the "
+                "a subclass MessageReceivedFromOwner that sends an arbitrary list of replies and may ask to exit, and the event-driven "
+                "way to write InternalThreadEntry (select() on GetInternalThreadWakeupSocket() first, then poll "
+                "WaitForNextMessageFromOwner(ref, 0) until B_TIMED_OUT: the MessageTransceiverThread / AsyncDataIO pattern).  Not modelled: the "
                 "user-registered socket sets of WaitForNextMessageAux, ICallbackMechanism dispatch, thread priorities, allocation "
                 "failure, the Qt/pthread/Win32 back ends.")
     premises = ["std::recursive_mutex / std::condition_variable / std::thread semantics: under the controlled scheduler blocking is simulated by the scheduler (mutex owners, WaitCondition counting semantics, join); the native primitives are premises (DESIGN.md 5.3)",
                 "AF_UNIX socket pair semantics (a byte sent is readable at once on the other end, recv absorbs up to the buffer size, a closed end makes the other end readable): the real sockets are used and queried by the harness, select() is replaced by the scheduler",
                 "one transition = one _queueLock critical section / one signal / one return: interleavings inside a critical section are not distinguished; unlocked reads of _messageSocketsAllocated, the socket references and _messages.HasItems() are taken to be atomic (the C++ data races on them are outside the model)",
                 "only the owner thread (thread 0) receives replies and calls Start/Shutdown/WaitForInternalThreadToExit, as Thread.h documents; one reader per queue",
+                "event-driven internal thread only: only the owner sends to the internal thread (mode_ok); without it StartInternalThread's too-early HasItems() read loses a wake-up (c11_evd_lost_wakeup_refuted, replayed on the real code; finding handed to the orchestrator)",
                 "pending-notification counts stay below 2^32 (saturation not modelled); allocation never fails",
                 "liveness is proved in its safety form only (an enabled transition exists); fairness of the OS scheduler is not modelled"]
     rule = ("each case = an owner program (start / sends / receives poll, blocking, timed / shutdown / join / restart) plus 0..3 sender "
@@ -170,6 +190,8 @@ class CHECK(vlib.Check):
             "after every critical section and API return (queues, readable signal bytes, notification counts, allocation/running "
             "flags), parking/wake-up/timeout, thread creation/exit/join and API results are compared with the extracted LTS, which "
             "re-derives the same decisions from its own enabledness; the harness's ideal-FIFO / lost-wake-up oracle runs as well.  "
+            "'fine' cases (f=1) additionally make every Mutex lock inside muscle a decision point (interleavings inside "
+            "StartInternalThread, socket-pair creation, object pools) and are judged by the oracle alone.  "
             "Non-trivial = the internal thread is started and at least one Message is sent to it.")
     quick_timeout = 900
 
@@ -202,6 +224,28 @@ class CHECK(vlib.Check):
                 out.append(("directed", "m=%s,k=%s,n=%d,seed=-,sch=|%s" % (mk[0], mk[1], n, body)))
                 for _ in range(reps):
                     out.append(("directed", "m=%s,k=%s,n=%d,seed=%d,sch=|%s" % (mk[0], mk[1], n, rng.randint(1, 10 ** 9), body)))
+        # "fine" runs (f=1): every Mutex lock inside muscle is a decision point, so threads also interleave inside
+        # StartInternalThread, CreateConnectedSocketPair, the object pools ...; the LTS has no such steps, the harness's oracle
+        # alone judges them (search for a failing input).  Programs stay inside the contract the theorems need: for the
+        # event-driven internal thread only the owner sends to it.  VERIF_C11_FINE_ALL=1 lifts that restriction (it then
+        # finds the racy needsInitialSignal of StartInternalThread, see OUT_OF_CONTRACT below).
+        n_fine = 160 if tier == "quick" else 1600
+        for i in range(n_fine):
+            mk = rng.choice(MODES)
+            if i % 2 == 0:
+                n, body = rng.choice(DIRECTED)
+            else:
+                ids = Ids()
+                nsend = rng.choice([1, 1, 2])
+                progs = [owner_prog(rng, ids, rng.choice(["tidy", "restart"]))] + [sender_prog(rng, ids) for _ in range(nsend)]
+                n, body = 1 + nsend, interleave(rng, progs)
+            if mk[1] == "e" and not in_contract(body) and os.environ.get("VERIF_C11_FINE_ALL") != "1":
+                mk = ("s", "d")
+            out.append(("fine", "m=%s,k=%s,f=1,n=%d,seed=%d,sch=|%s" % (mk[0], mk[1], n, rng.randint(1, 10 ** 9), body)))
+        if os.environ.get("VERIF_C11_FINE_ALL") == "1":
+            for (n, body) in OUT_OF_CONTRACT:
+                for _ in range(60):
+                    out.append(("fine-out-of-contract", "m=s,k=e,f=1,n=%d,seed=%d,sch=|%s" % (n, rng.randint(1, 10 ** 9), body)))
         # exhaustive schedules up to a preemption bound (support for the tie, not the theorem)
         if getattr(self, "_impl", None):
             if tier == "quick":
@@ -232,7 +276,7 @@ class CHECK(vlib.Check):
             d["stream:" + s] = d.get("stream:" + s, 0) + 1
             head, body = c.split("|", 1)
             for h in head.split(","):
-                if h.startswith("m=") or h.startswith("n=") or h.startswith("k="):
+                if h.startswith("m=") or h.startswith("n=") or h.startswith("k=") or h.startswith("f="):
                     d[h] = d.get(h, 0) + 1
                 if h.startswith("seed="):
                     k = "policy:" + ("nonpreemptive" if h == "seed=-" else "random")
